@@ -135,8 +135,8 @@ def check_key_identity(analysis: Analysis, res: RuleResult, rule: str) -> None:
                     ok = isinstance(val, ast.Call) and val.args and unparse(val.args[0]) == key and unparse(val.func) in ("Sensor", "ChildSensor")
                     n += 1
                     res.add(rule, f"{fn} / {norm_stmt(t)} = ...", ok, where(analysis, mod, node), "inserted object is constructed with the key as its id" if ok else f"inserted value {unparse(val)[:60]} is not an object constructed with the key {key}")
-    if n < 3:
-        raise AnalysisError(f"{rule}: only {n} map insertion sites found, expected at least 3")
+    if n < 2:
+        raise AnalysisError(f"{rule}: only {n} map insertion sites found, expected at least 2")
 
 
 def check_seeds(analysis: Analysis) -> List[str]:
